@@ -18,7 +18,7 @@
 mod exec;
 mod prog;
 
-use exec::{diff_states, fold, is_machine_scalar, make_unit, run_driver, run_ref, run_stepper, End, Trace, Unit, Watch};
+use exec::{diff_states, fold, is_machine_scalar, make_unit, run_block, run_driver, run_ref, run_stepper, End, Trace, Unit, Watch};
 use falcon::architecture::{self, Architecture, Endian};
 use falcon::il;
 use falcon::memory::{backing, MemoryPermissions};
@@ -101,7 +101,7 @@ fn decode(t: &mut Tape) -> Case {
         1 => t.range(9, 24),
         _ => t.range(25, 60),
     };
-    let has_dispatch = t.chance(3, 10);
+    let has_dispatch = t.chance(4, 10);
     let mut placed_dispatch = false;
     let mut items: Vec<Item> = Vec::new();
     let mut run_left = draw_run(t, isa);
@@ -113,7 +113,7 @@ fn decode(t: &mut Tape) -> Case {
         }
         let len = isa.pool().len();
         let mut junk_after = false;
-        match t.weighted(&[40, 18, 20, 6, 8, 8]) {
+        match t.weighted(&[40, 18, 20, 6, 8, 12]) {
             0 => items.push(Item::Cond { cc: t.below(18) as u8, ra: t.below(len) as u8, rb: t.below(len) as u8, target: 0, into_slot: t.chance(1, 50), near: t.chance(1, 3), slot: gen_slot(t, isa) }),
             1 => {
                 items.push(Item::Jmp { target: 0, into_slot: t.chance(1, 50), near: t.chance(1, 3), abs: t.chance(1, 2), slot: gen_slot(t, isa) });
@@ -146,6 +146,14 @@ fn decode(t: &mut Tape) -> Case {
             items.push(Item::Junk { bytes: (0..k).map(|_| t.raw() as u8).collect() });
         }
         run_left = draw_run(t, isa);
+    }
+    if has_dispatch && !placed_dispatch && t.chance(2, 3) {
+        // the dispatch ends the straight-line code; the final terminator is reached through it
+        placed_dispatch = true;
+        if t.chance(1, 2) {
+            items.push(Item::SetDisp { which: t.below(2) as u8 });
+        }
+        items.push(Item::Dispatch { slot: gen_slot(t, isa) });
     }
     items.push(Item::Ret { slot: gen_slot(t, isa) });
     let n = items.len();
@@ -423,6 +431,14 @@ fn check(c: &Case, obs: &mut Obs) -> Result<(), Failure> {
     if st.taken > 0 {
         obs.class("taken-branch");
     }
+    if let Some(h) = p.disp_addr {
+        if st.evs.iter().any(|e| e.0 == h) {
+            obs.class("dispatch-executed");
+            if !manual.is_empty() {
+                obs.class("manual-head-executed");
+            }
+        }
+    }
 
     // a branch that lands on a delay slot: the slot instruction is shared between the block of
     // its branch and the block that starts at it
@@ -430,6 +446,44 @@ fn check(c: &Case, obs: &mut Obs) -> Result<(), Failure> {
     if sh.target_delay_slot && obs.known(&slot_sig) {
         obs.exclude(&format!("known_finding:{}", slot_sig));
         return Ok(());
+    }
+
+    // ---- the entry window as one graph (BlockTranslationResult::blockify)
+    // `translate_block` documents one graph per instruction "which represents the semantics of this
+    // block", and `blockify` returns "a single ControlFlowGraph for this block": running it must
+    // visit the block's instructions in order, exactly like the sequential execution does until the
+    // block ends (a block holds no taken branch except its last instruction).
+    {
+        let wlen = (region_end - p.entry).min(64) as usize;
+        let off = (p.entry - p.base) as usize;
+        let window = &p.bytes[off..off + wlen];
+        if let Ok(Ok(btr)) = guard(|| translator.translate_block(window, p.entry, &Options::default())) {
+            let expected: Vec<u64> = btr.instructions().iter().filter(|(_, g)| g.blocks().iter().any(|b| !b.is_empty())).map(|(a, _)| *a).collect();
+            match guard(|| btr.blockify()) {
+                Ok(Ok(g)) => {
+                    let bv = FnView::of_cfg(&g);
+                    let bt = run_block(&bv, &init, &watch, expected.len() + 1);
+                    let n = expected.len().min(st.evs.len());
+                    let got: Vec<u64> = bt.evs.iter().map(|e| e.0).collect();
+                    let dumpb = || format!("block at 0x{:x} ({} bytes)\n{}\nblockify():\n{}", p.entry, wlen, listing(&p), g);
+                    if got != expected {
+                        fv::fail!(format!("C06|{}|blockify|address-sequence", tag), "running blockify() visits {:x?}, the block's instructions are {:x?} (ended {:?} {})\n{}", got, expected, bt.end, bt.note, dumpb());
+                    }
+                    for k in 0..n {
+                        if bt.evs[k].0 != st.evs[k].0 {
+                            // the sequential execution left the block early (cannot happen: same bytes)
+                            break;
+                        }
+                        if bt.evs[k].1 != st.evs[k].1 {
+                            fv::fail!(format!("C06|{}|blockify|state", tag), "running blockify(): the state at event {} (0x{:x}) differs from the sequential execution\n{}", k, bt.evs[k].0, dumpb());
+                        }
+                    }
+                    obs.class("blockify-compared");
+                }
+                Ok(Err(e)) => fv::fail!(format!("C06|{}|blockify|err", tag), "blockify() of the block at 0x{:x} returned Err: {}\n{}", p.entry, e, listing(&p)),
+                Err(pi) => fv::fail!(format!("C06|{}|blockify|{}", tag, pi.sig()), "blockify() panicked: {} ({}:{})\n{}", pi.msg, pi.file, pi.line, listing(&p)),
+            }
+        }
     }
 
     // ---- recover the function
@@ -592,9 +646,17 @@ fn check(c: &Case, obs: &mut Obs) -> Result<(), Failure> {
     }
     // `Driver::step` continues a Branch at the IL instruction that carries the target address and
     // knows nothing of manual edges; it has nowhere to go when the target holds no IL
-    let driver_blind = st.branch_to_no_il;
+    let mut driver_blind = st.branch_to_no_il;
     if driver_blind {
         obs.exclude("driver-run:indirect-branch-to-instruction-without-il");
+    }
+    // A Branch into a native instruction whose graph has several blocks, after `merge` moved the
+    // head of that graph into a block with a higher index than the rest of it: `Driver::step`
+    // (`from_address`: "the first Instruction with the given address") lands inside the instruction.
+    let inside_sig = format!("C06|{}|driver-run|branch-lands-inside-multi-block-instruction", if isa.is_mips() { "mips" } else { tag });
+    if rf.first_instruction_rule_differs && obs.known(&inside_sig) {
+        obs.exclude(&format!("known_finding:{}", inside_sig));
+        driver_blind = true;
     }
     let dr = run_driver(isa, &function, arch.clone(), &init, &lifted, &watch, c.max_steps, None);
     if let (false, Some((kind, k, msg))) = (driver_blind, compare(&st, &dr)) {
@@ -604,7 +666,8 @@ fn check(c: &Case, obs: &mut Obs) -> Result<(), Failure> {
             (Some(a), Some(b)) => diff_states(&a, &b, &watch),
             _ => String::new(),
         };
-        fv::fail!(format!("C06|{}|driver-run|{}", tag, kind), "{}\n(machine code vs Driver: {})\n{}", msg, d, dump());
+        let sig = if rf.first_instruction_rule_differs { inside_sig } else { format!("C06|{}|driver-run|{}", tag, kind) };
+        fv::fail!(sig, "{}\n(machine code vs Driver: {})\n{}", msg, d, dump());
     }
 
     // ---- non-trivial
@@ -794,7 +857,7 @@ fn main() -> std::process::ExitCode {
         "C06",
         "machine-code programs of 3-60 items for x86/amd64/mips/mipsel/aarch64 (ALU, scratch loads/stores, forward/backward conditional and unconditional direct branches, counted loops, optional jmp-reg dispatch with manual edges, junk islands) recovered with translate_function[_extended] and compared, structurally against the generator's ground truth and behaviourally (Driver and reference interpreter on the recovered function vs a sequential one-unit-at-a-time stepper, same random initial state, up to 2000 native steps); non-trivial = at least 2 blocks after merge and at least one taken branch in the execution; distinct = (ISA, set of layout shapes {window cut, straddle, cut on boundary, MIPS branch in last 8 bytes, mid-block target, backward, entry loop, manual edges, ...}, instruction-count bucket)",
         Box::new(|_t: Tier| from_tape(900, decode).no_shrink().boxed()),
-        |t| t.pick(6_000, 400_000),
+        |t| t.pick(60_000, 2_000_000),
         check,
     );
     spec.render = render;
